@@ -21,6 +21,11 @@ POOLS = {
  "life": ("life", "", 144, 3000, 40000),
  "hand": ("hand", "", 144, 3000, 60000),
  "fault": ("fault", "", 96, 2500, 80000),
+ # quarantine pools: each contains the trigger of one recorded finding and exists to confirm exactly that finding
+ "kf-midhand-leave": ("kf", "kf-midhand-leave", 24, 200, 100000),
+ "kf-lost-blind-update": ("kf", "kf-lost-blind-update", 16, 100, 110000),
+ "kf-update-partial": ("members", "kf-update-partial", 48, 400, 120000),
+ "kf-shortdeck": ("general", "shortdeck", 48, 400, 130000),
 }
 
 
@@ -41,6 +46,8 @@ def run_pool(name, tier, d):
     profile, allow, nq, nt, off = POOLS[name]
     n = nq if tier == "quick" else nt
     procs = 48 if n >= 96 else max(1, n // 2)
+    if name == "kf-midhand-leave":
+        procs = n          # the finding kills the engine process: one scenario per process
     per = (n + procs - 1) // procs
     base = vlib.seed() * 100000 + off
     jobs = []
@@ -61,6 +68,18 @@ def run_pool(name, tier, d):
             if p.returncode != 0:
                 # an engine goroutine died (panic outside the driver's reach): the trace ends abruptly; mark it
                 crashed.append((cmd, p.stderr[-1500:]))
+                try:
+                    raw = open(out, "rb").read().split(b"\n")
+                    ok = []
+                    for l in raw:
+                        try:
+                            json.loads(l)
+                            ok.append(l)
+                        except Exception:
+                            pass
+                    open(out, "wb").write(b"\n".join(ok) + b"\n")
+                except Exception:
+                    pass
                 with open(out, "a") as f:
                     last = None
                     try:
@@ -79,6 +98,20 @@ def run_pool(name, tier, d):
                 except Exception:
                     pass
             files.append(out)
+    for f in files:   # a killed worker may leave a torn last line
+        if not os.path.exists(f):
+            continue
+        lines = open(f, "rb").read().split(b"\n")
+        good = []
+        for l in lines:
+            if not l.strip():
+                continue
+            try:
+                json.loads(l)
+                good.append(l)
+            except Exception:
+                pass
+        open(f, "wb").write(b"\n".join(good) + (b"\n" if good else b""))
     merged = os.path.join(d, name + ".ndjson")
     with open(merged, "wb") as g:
         for f in files:
